@@ -292,7 +292,11 @@ impl C13 {
                 // the program has halted (virtual HALT, or the OS halt routine switched the clock
                 // off): calls made after that are not segments of the same execution
                 let halt_lo = lc3_ensemble::sim::_os_obj_file().symbol_table().and_then(|s| s.lookup_label("TRAP_HALT")).unwrap_or(0);
-                if sb == Stop::Halt || (sb == Stop::McrOff && scn.flags.real_traps && (halt_lo..halt_lo + 4).contains(&b.sim.pc)) {
+                // (exactly after the routine's store to MCR: a host/tripwire MCR clear that merely lands
+                // inside the routine is a pause, not the halt)
+                let _ = halt_lo;
+                let wrote_mcr = acc_b.get(&0xFFFE).is_some_and(|f| f & 2 != 0);
+                if sb == Stop::Halt || (sb == Stop::McrOff && scn.flags.real_traps && wrote_mcr) {
                     program_halted = true;
                     break;
                 }
